@@ -26,6 +26,15 @@ def variants(ctx, d):
     """(label, block) : word-level, synthesized, nand- and and-inverter-lowered"""
     out = [('word', d.block)]
     r = ctx.rng.random()
+    if ctx.rng.random() < 0.4:
+        # Outputs driven directly by the logic nets (no 'w' net in front of them)
+        b1 = passlib.private_copy(d.block)
+        try:
+            passlib.run_in(b1, lambda: pyrtl.direct_connect_outputs(b1))
+            b1.sanity_check()
+            out.append(('direct-outputs', b1))
+        except Exception:  # noqa
+            pass
     if r < 0.6:
         try:
             bs = passlib.run_in(d.block, lambda: pyrtl.synthesize(update_working_block=False, block=d.block))
@@ -69,6 +78,15 @@ def check_pass(ctx, label, src, pname, steps, steps_alt, memmap_by_id, reps, rep
         ctx.violation('%s-io-changed' % pname, '%s changed the Input/Output set: inputs %r -> %r, outputs %r -> %r' % (
             pname, ins0, ins1, outs0, outs1), replay)
         return False
+    # a register that survives keeps its reset value exactly (None and 0 differ under a non-zero default_value)
+    for r0 in src.wirevector_subset(Register):
+        r1 = work.wirevector_by_name.get(r0.name)
+        if isinstance(r1, Register) and r1.reset_value != r0.reset_value:
+            ctx.violation('%s-reset-value' % pname, '%s on a %s block: register %s had reset_value %r, afterwards %r (Simulation(default_value=d) '
+                          'starts it at %s instead of %s)' % (pname, label, r0.name, r0.reset_value, r1.reset_value,
+                                                              'd' if r1.reset_value is None else r1.reset_value,
+                                                              'd' if r0.reset_value is None else r0.reset_value), replay)
+            return False
     regs0 = set(w.name for w in src.wirevector_subset(Register))
     regs1 = set(w.name for w in work.wirevector_subset(Register))
     eliminated = regs0 - regs1
@@ -96,6 +114,38 @@ def check_pass(ctx, label, src, pname, steps, steps_alt, memmap_by_id, reps, rep
     if eliminated:
         ctx.count('eliminated-registers', len(eliminated))
     return True
+
+
+def folded_outputs(ctx):
+    """Outputs driven directly by nets the constant folder rewrites (what direct_connect_outputs or a hand-built
+    netlist produces): every Output must survive and keep its value."""
+    rng = ctx.rng
+    for k in range(ctx.n(6, 60)):
+        pyrtl.reset_working_block()
+        w = rng.choice([1, 1, 2, 4])
+        a, b, sel = Input(w, 'a'), Input(w, 'b'), Input(1, 'sel')
+        ones, zero = Const((1 << w) - 1, w), Const(0, w)
+        cst = Const(rng.getrandbits(w), w)
+        r = Register(w, 'r')
+        r.next <<= r ^ a
+        exprs = [a & ones, a & zero, b | zero, b | ones, a ^ zero, a ^ ones, ~cst, cst & ones, cst ^ cst, a & cst, b | cst,
+                 pyrtl.select(Const(1, 1), a, b), pyrtl.select(Const(0, 1), a, b), pyrtl.select(sel, cst, cst), a + zero,
+                 r & zero, r | zero, pyrtl.concat(cst, a), cst[0:1], a.nand(zero) if hasattr(a, 'nand') else ~(a & zero)]
+        rng.shuffle(exprs)
+        for i, e in enumerate(exprs[:rng.randint(4, len(exprs))]):
+            o = Output(len(e), 'o%d' % i)
+            o <<= e
+        blk = pyrtl.working_block()
+        if rng.random() < 0.8:
+            pyrtl.direct_connect_outputs(blk)
+        steps = [{'a': rng.getrandbits(w), 'b': rng.getrandbits(w), 'sel': rng.getrandbits(1)} for _ in range(4)]
+        steps_alt = [{'a': rng.getrandbits(w), 'b': rng.getrandbits(w), 'sel': rng.getrandbits(1)} for _ in range(4)]
+        replay0 = {'kind': 'design', 'label': 'folded-outputs#%d' % k, 'steps': steps, 'memmap': {}}
+        for pname in ('optimize', 'constant_propagation', 'optimize-copy'):
+            check_pass(ctx, 'direct-outputs', blk, pname, steps, steps_alt, {}, 1, replay0)
+            ctx.case(('folded-outputs', pname, k), nontrivial=True)
+            ctx.count('pass', pname)
+        ctx.count('variant', 'folded-outputs')
 
 
 def main(ctx):
@@ -130,6 +180,7 @@ def main(ctx):
         ctx.sample({'design': desc, 'cycles': len(steps)})
         if len(ctx.violations) >= 6:
             break
+    folded_outputs(ctx)
     ctx.oblige('oracle:Spec(pass(b))=Spec(b) on Outputs; io kept; result well-formed', not ctx.violations,
                '%d/%d (variant, pass) applications agree' % (agree, total))
     return conclude(ctx, rule='random designs enriched with constants (constant operands, constant-fed registers, constants '
